@@ -480,7 +480,8 @@ type Axiom struct {
 
 type ContractSet struct {
 	Funcs     map[string]*FuncContract // key: pkgpath + "." + Key
-	SpecFuncs map[string]*SpecFunc
+	SpecFuncs map[string]*SpecFunc // by "pkgpath\x00name"
+	SpecFuncByName map[string][]*SpecFunc
 	Ghosts    []*GhostField
 	LockInvs  []*LockInv
 	Axioms    []*Axiom
@@ -488,7 +489,7 @@ type ContractSet struct {
 }
 
 func newContractSet() *ContractSet {
-	return &ContractSet{Funcs: map[string]*FuncContract{}, SpecFuncs: map[string]*SpecFunc{}}
+	return &ContractSet{Funcs: map[string]*FuncContract{}, SpecFuncs: map[string]*SpecFunc{}, SpecFuncByName: map[string][]*SpecFunc{}}
 }
 
 var clauseKeywords = map[string]bool{
@@ -728,7 +729,13 @@ func (cs *ContractSet) parseContractText(file, pkgPath string, lines []string, l
 				return fmt.Errorf("%s:%d: %v", file, it.line, err)
 			}
 			sf.PkgPath = pkgPath
-			cs.SpecFuncs[sf.Name] = sf
+			for _, o := range cs.SpecFuncByName[sf.Name] {
+				if o.PkgPath == pkgPath {
+					return fmt.Errorf("%s:%d: spec function %s defined twice in %s", file, it.line, sf.Name, pkgPath)
+				}
+			}
+			cs.SpecFuncs[pkgPath+"\x00"+sf.Name] = sf
+			cs.SpecFuncByName[sf.Name] = append(cs.SpecFuncByName[sf.Name], sf)
 		case "ghost":
 			// ghost field T.name type
 			fs := strings.Fields(rest)
@@ -895,4 +902,21 @@ func parseSpecFunc(s string) (*SpecFunc, error) {
 		return nil, fmt.Errorf("specfunc %s needs a result type", name)
 	}
 	return sf, nil
+}
+
+// lookupSpecFunc resolves a spec function name: the definition in the current package wins;
+// otherwise the name must be defined in exactly one other package (contracts of dependencies and
+// extern specs share one flat namespace, so a clash is an error rather than a silent pick).
+func (cs *ContractSet) lookupSpecFunc(name, pkgPath string) (*SpecFunc, error) {
+	if sf := cs.SpecFuncs[pkgPath+"\x00"+name]; sf != nil {
+		return sf, nil
+	}
+	l := cs.SpecFuncByName[name]
+	switch len(l) {
+	case 0:
+		return nil, nil
+	case 1:
+		return l[0], nil
+	}
+	return nil, fmt.Errorf("spec function %s is ambiguous: defined in %s and %s", name, l[0].PkgPath, l[1].PkgPath)
 }
